@@ -102,10 +102,11 @@ Section Sets.
     | [] => (None, None)
     | x :: s' => if Nat.eqb x v then (prev, hd_error s') else nbrs_aux (Some x) v s'
     end.
-  (* elements before v, nearest first, and elements after v *)
+  (* elements before v, nearest first, and elements after v (nothing if v is not in the set: cannot happen in the
+     generators, which call this right after inserting v) *)
   Fixpoint split_at (v : nat) (s : list nat) (acc : list nat) : list nat * list nat :=
     match s with
-    | [] => (acc, [])
+    | [] => ([], [])
     | x :: s' => if Nat.eqb x v then (acc, s') else split_at v s' (x :: acc)
     end.
 End Sets.
